@@ -272,11 +272,12 @@ def exercise(ctx, L, cif, i, label, deep=False):
     ctx.count('cifs_exercised')
 
 
-def one_run(ctx, L, data, o, target_kind, policy, i, label, handler=False, chunk=0, fail_at=0, syntax=False, deep=False):
+def one_run(ctx, L, data, o, target_kind, policy, i, label, handler=False, chunk=0, fail_at=0, syntax=False, deep=False, answers=None):
     """-> (rc, errors, problems); exercises and destroys the CIF"""
     pre = prepopulated(L) if target_kind == 'existing' else None
     target = None if target_kind == 'none' else ('new' if target_kind == 'new' else pre)
-    res = parsing.parse(L, data, opts_of(o), target, policy, with_handler=handler, chunk=chunk, fail_at=fail_at, syntax=syntax)
+    fn = (lambda k, kind, payload: answers[k % len(answers)]) if (handler and answers) else None
+    res = parsing.parse(L, data, opts_of(o), target, policy, with_handler=handler, chunk=chunk, fail_at=fail_at, syntax=syntax, handler_answer_fn=fn)
     ctx.count('parses')
     cif = pre if pre else res.cif
     problems = list(res.problems)
@@ -303,6 +304,14 @@ def run_case(ctx, L, i):
     o = option_vector(rng)
     target_kind = rng.choice(['new', 'new', 'none', 'existing'])
     handler = rng.random() < 0.3
+    # one input in three with a handler also steers the parse: a fixed table of navigation answers, indexed by
+    # callback number, so that every run of the family gives the same answers
+    answers = None
+    if handler and rng.random() < 0.35:
+        answers = [rng.choice([0, 0, 0, 0, 0, 0, TRAVERSE_SKIP_CURRENT, TRAVERSE_SKIP_SIBLINGS]) for _ in range(rng.choice([3, 7, 16]))]
+        if rng.random() < 0.15:
+            answers[rng.randrange(len(answers))] = TRAVERSE_END
+        ctx.count('inputs_with_steering_handler')
     depth = bracket_depth(data)
     deep = depth > 200
     if deep:
@@ -321,7 +330,7 @@ def run_case(ctx, L, i):
             ctx.violation(k, '[%s] %s' % (run, d), info)
 
     # R0: the all-accepting reference
-    rc0, E, problems = one_run(ctx, L, data, o, target_kind, 'accept', i, 'R0', handler=handler, deep=deep)
+    rc0, E, problems = one_run(ctx, L, data, o, target_kind, 'accept', i, 'R0', handler=handler, answers=answers, deep=deep)
     report(problems, 'R0')
     ctx.count('errors_reported', len(E))
     for e in E:
@@ -336,7 +345,7 @@ def run_case(ctx, L, i):
         if rc0 == CIF_OK and data:
             pass        # an unsupported default encoding need not matter when a signature decides the encoding
     # R1: the default handler returns exactly the first code
-    rc1, E1, problems = one_run(ctx, L, data, o, target_kind, 'default', i, 'R1', handler=handler, deep=deep)
+    rc1, E1, problems = one_run(ctx, L, data, o, target_kind, 'default', i, 'R1', handler=handler, answers=answers, deep=deep)
     report(problems, 'R1')
     want1 = E[0][0] if E else rc0
     if rc1 != want1:
@@ -347,7 +356,7 @@ def run_case(ctx, L, i):
     # R2: reject the n-th error with a code of the caller's
     n = rng.randint(1, len(E) + 1) if rng.random() < 0.8 else 1
     z = rng.choice([E[n - 1][0] if n <= len(E) else 5, 1, 2, 7777, 2147483647, 113, 255])
-    rc2, E2, problems = one_run(ctx, L, data, o, target_kind, ('reject-nth', n, z), i, 'R2', handler=handler, deep=deep)
+    rc2, E2, problems = one_run(ctx, L, data, o, target_kind, ('reject-nth', n, z), i, 'R2', handler=handler, answers=answers, deep=deep)
     report(problems, 'R2')
     if n <= len(E):
         if E2 != E[:n]:
@@ -361,7 +370,7 @@ def run_case(ctx, L, i):
     else:
         ctx.count('reject_twin_agreed')
     # R3: another chunking, handler toggled
-    if i % 3 == 0:
+    if i % 3 == 0 and not answers:
         chunk = rng.choice([1, 2, 3, 7, 64, 1000, 4093])
         if len(data) > 20000 and chunk < 7:
             chunk = 64
@@ -377,7 +386,7 @@ def run_case(ctx, L, i):
         chunk = rng.choice([16, 100, 1000, 4096])
         reads = len(data) // chunk + 1
         k = rng.randint(1, max(1, reads))
-        rc4, E4, problems = one_run(ctx, L, data, o, target_kind, 'accept', i, 'R4', handler=handler, chunk=chunk, fail_at=k, deep=deep)
+        rc4, E4, problems = one_run(ctx, L, data, o, target_kind, 'accept', i, 'R4', handler=handler, answers=answers, chunk=chunk, fail_at=k, deep=deep)
         report(problems, 'R4')
         ctx.add('io_fault_results', str(rc4))
         if rc4 not in DEFINED_CODES:
